@@ -221,16 +221,80 @@ def gen_op(rng, backends):
     return op
 
 
+RAW_OPS = [("lookup", 5), ("get_images", 4), ("search", 4), ("browse", 3), ("get_distinct", 3), ("refresh", 2),
+           ("get_items", 2), ("delete", 2), ("set_volume", 2), ("set_mute", 1.5)]
+
+
+def gen_raw_op(rng, backends):
+    """A request whose arguments are raw Python values (JSON-able specs of c09_validation)."""
+    import c09_validation as V
+
+    schemes = all_schemes(backends) or ["a"]
+    raw = rng.weighted(RAW_OPS)
+
+    def one_uri():
+        k = rng.weighted([("uri", 8), ("none", 1.5), ("odd", 5)])
+        if k == "uri":
+            return gen_uri(rng, schemes)
+        if k == "none":
+            return None
+        return rng.choice([5, True, 1.5, b"", b" \t", b"a:1", ["a:1"], ("a:1",), {"a:1": 1}, "", "  ", "\t",
+                           "noscheme", V.I.render_obj("ref", 3, True), V.I.Junk(), {"a:1"}, V.It(["a:1"])])
+
+    def many_uris():
+        k = rng.weighted([("list", 8), ("tuple", 2), ("none", 1), ("odd", 6)])
+        us = gen_uris(rng, schemes)
+        if k == "list":
+            return us
+        if k == "tuple":
+            return tuple(us)
+        if k == "none":
+            return None
+        return rng.choice([gen_uri(rng, schemes), {u: 1 for u in us}, set(us[:1]), b"", b"ab", V.It(us), us + [5],
+                           us + [None], [us], 7, True, V.I.render_obj("track", 3, True), V.I.Junk(), [b"a:1"], (), {}])
+
+    op = {"name": "raw", "raw": raw}
+    if raw in ("lookup", "get_images"):
+        args = [many_uris()]
+    elif raw == "search":
+        op["query"] = rng.choice(QUERY_TOKENS)
+        args = [many_uris(), rng.weighted([(True, 3), (False, 3), (None, 1), (1, 1), ("yes", 1), (0, 0.5)])]
+    elif raw in ("browse", "refresh", "get_items", "delete"):
+        args = [one_uri()]
+    elif raw == "get_distinct":
+        op["query"] = rng.choice(["none", "none", "good", "good2", "empty", "str", "bad", "blank"])
+        args = [rng.weighted([("artist", 4), ("track_no", 2), ("track", 1), ("track_name", 1), ("bogus", 1), ("", 0.5),
+                              (5, 0.5), (None, 0.5), (["artist"], 0.7), (("artist",), 0.5), ({"artist": 1}, 0.5),
+                              (True, 0.3)])]
+    elif raw == "set_volume":
+        args = [rng.choice([0, 1, 50, 100, 101, -1, True, False, 1.5, "50", None, [5], 10**6])]
+    else:
+        args = [rng.choice([True, False, 1, 0, None, "true", [True]])]
+    op["args"] = [V.spec_of(a) for a in args]
+    return op
+
+
 def fill_answers(rng, case):
     backends, op = case["backends"], case["op"]
     uris = op.get("uris") or ([op["uri"]] if op.get("uri") else [])
+    if op["name"] == "raw":
+        import c09_validation as V
+
+        uris = [u for u in V.spec_strings(op["args"][0], []) if ":" in u]
     for i, b in enumerate(backends):
-        flag = "playlists" if op["name"] in ("get_items", "pl_lookup", "delete", "save") else "lib"
+        flag = "playlists" if op.get("raw", op["name"]) in ("get_items", "pl_lookup", "delete", "save") else "lib"
         own = [u for u in uris if owner_index(backends, flag, scheme_of(u)) == i]
         b["answers"] = {}
         for m in LIB_METHODS + PL_METHODS:
             if rng.random() < 0.9:
                 b["answers"][m] = gen_resp(rng, m, i, own, uris)
+
+
+def gen_raw_case(rng):
+    backends = gen_population(rng)
+    case = {"backends": backends, "mixer": gen_mixer(rng), "op": gen_raw_op(rng, backends)}
+    fill_answers(rng, case)
+    return case
 
 
 def gen_case(rng):
